@@ -41,6 +41,32 @@ func runC13(c *Ctx) {
 	c.rule("R13.3", "reflective calls into user code occur only inside protected functions")
 
 	c.rule("R13.5", "nothing acquired before the user call is released only after it in straight-line code of the recovering function (a panic skips that code: the slot, lock or counter would leak and later calls block)")
+	c.ruleOpt("R13.6", "the HTTP client reads error replies in full (a cap on non-200 bodies cuts a long panic report: the caller then sees a decode error that does not mention the panic)")
+	{
+		n := 0
+		for _, fn := range p.Funcs {
+			if pkgOf(fn) != p.Root.Pkg {
+				continue
+			}
+			allInstrs(fn, func(in ssa.Instruction) {
+				call, ok := in.(*ssa.Call)
+				if !ok || calleeName(call) != "io.LimitReader" {
+					return
+				}
+				isRespBody := c.dependsOn(call.Common().Args[0], func(v ssa.Value) bool {
+					f := loadedField(v)
+					return f != nil && f.Name() == "Body" && isNamed(derefType(v, f), "net/http", "Response")
+				}, 0, map[ssa.Value]bool{})
+				if isRespBody {
+					n++
+					c.bad("R13.6", fmt.Sprintf("%s: response body read through a limit", fname(fn)), c.ipos(call), "the HTTP client reads (some) response bodies through io.LimitReader: an error object longer than the limit — a handler panic with a long payload — is cut, decoding fails, and the caller's error no longer mentions the panic")
+				}
+			})
+		}
+		if n == 0 {
+			c.ok("R13.6", "HTTP response bodies", "-", "read without a cap")
+		}
+	}
 	c.rule("R13.4", "the error reply for a panicking handler has somewhere to go: the writer provider handed to the dispatcher is never nil (a nil provider turns the recovered panic into a crash on the library's own goroutine)")
 	c.wsWriterChoice("R13.4")
 
@@ -150,8 +176,29 @@ func runC13(c *Ctx) {
 					continue
 				}
 				for _, use := range transitiveUses(ex) {
-					switch use.(type) {
+					switch x := use.(type) {
 					case *ssa.IndexAddr, *ssa.Index, *ssa.Slice:
+					case *ssa.Call:
+						// handed to a helper (a tracer wrapper) that indexes it
+						g := staticCallee(x)
+						if g == nil || !p.allFns[g] {
+							continue
+						}
+						indexes := false
+						for i, a := range x.Common().Args {
+							if a != ssa.Value(ex) || i >= len(g.Params) {
+								continue
+							}
+							for _, u2 := range transitiveUses(g.Params[i]) {
+								switch u2.(type) {
+								case *ssa.IndexAddr, *ssa.Index:
+									indexes = true
+								}
+							}
+						}
+						if !indexes {
+							continue
+						}
 					default:
 						continue
 					}
